@@ -193,7 +193,13 @@ static void File_New(var self, var args) {
 
 static void File_Del(var self) {
   struct File* f = self;
-  if (f->file isnt NULL) { File_Close(self); }
+  /* A destructor has nobody to report to (it may be the collector, in the
+  ** middle of a sweep, that runs it): the stream is closed, an error that
+  ** fclose reports is dropped */
+  if (f->file isnt NULL) {
+    fclose(f->file);
+    f->file = NULL;
+  }
 }
 
 static var File_Open(var self, var filename, var access) {
@@ -395,7 +401,11 @@ static void Process_New(var self, var args) {
 
 static void Process_Del(var self) {
   struct Process* p = self;
-  if (p->proc isnt NULL) { Process_Close(self); }
+  /* As for File: closed, the exit status of the command is dropped */
+  if (p->proc isnt NULL) {
+    pclose(p->proc);
+    p->proc = NULL;
+  }
 }
 
 static var Process_Open(var self, var filename, var access) {
